@@ -84,6 +84,27 @@ MUTATIONS = [
                  }
                  $ret_val
              } else {""")]},
+    # ---- C14
+    {"name": "c14_async_guard_forgotten", "props": ["C14"], "edits": [(INJ, """    pub fn will_return_async(self, target: FuncPtr) {
+        if target.signature != self.expected_signature {
+            panic!(
+                "Signature mismatch: expected {:?} but got {:?}",
+                self.expected_signature, target.signature
+            );
+        }
+
+        let guard = self.when.will_execute_guard(target.func_ptr_internal);
+        self.lib.guards.push(guard);""", """    pub fn will_return_async(self, target: FuncPtr) {
+        if target.signature != self.expected_signature {
+            panic!(
+                "Signature mismatch: expected {:?} but got {:?}",
+                self.expected_signature, target.signature
+            );
+        }
+
+        let guard = self.when.will_execute_guard(target.func_ptr_internal);
+        std::mem::forget(guard);""")]},
+    {"name": "c14_refake_restores_in_install_order", "props": ["C14", "C02"], "edits": [(INJ, "        while let Some(guard) = self.guards.pop() {\n            drop(guard);\n        }", "        for guard in self.guards.drain(..) {\n            drop(guard);\n        }")]},
     # ---- C15
     {"name": "c15_branch_range_typo", "props": ["C15"], "edits": [(ARM64, "-0x2000000..=0x1FF_FFFF;", "-0x2000000..=0x1FFF_FFFF;")]},
     {"name": "c15_movk_chunk_start", "props": ["C15"], "edits": [(ARM64, "emit_movk_from_address(target_addr, 32, true, u8_to_bits::<2>(2), register_name)", "emit_movk_from_address(target_addr, 48, true, u8_to_bits::<2>(2), register_name)")]},
